@@ -108,3 +108,18 @@ Theorem C19_source_thin_bodies :
   thin_of "Zeroize for GenericArray<T,N>" "zeroize" = Some "self . as_mut_slice () . iter_mut () . zeroize ()" /\
   thin_of "GenericArray<T,U>" "const_default" = Some "Self :: DEFAULT".
 Proof. repeat split. Qed.
+
+(* ---- T2: the bounds of the trait impls this property's operations come from, as they stand in the source now
+        (coq/gen/GenSigs.v gen_impl_bounds): code that is generic over the lengths / element type and states
+        exactly these bounds can call them ---- *)
+From Coq Require Import String.
+From GA Require Import SigDefs.
+From GAGen Require Import GenSigs.
+Local Open Scope string_scope.
+
+Theorem C19_source_impl_bounds :
+  bounds_of "Zeroize for GenericArray<T,N>" = Some ["N:ArrayLength"; "T:Zeroize"] /\
+  bounds_of "ConstDefault for GenericArrayImplEven<T,U>" = Some ["U:ConstDefault"] /\
+  bounds_of "ConstDefault for GenericArrayImplOdd<T,U>" = Some ["T:ConstDefault"; "U:ConstDefault"] /\
+  bounds_of "ConstDefault for GenericArray<T,U>" = Some ["U::ArrayType<T>:ConstDefault"; "U:ArrayLength"].
+Proof. repeat split. Qed.
